@@ -413,6 +413,19 @@ def scenario_failed_plan_then_edit():
                   {"edits": [["repair_plan", "root plan as before"], ["change_source", "src/x.txt"]], "spec": p3}]
 
 
+def scenario_failed_plan_then_env_change():
+    """As failed_plan_then_edit, but what changes while StepUp is down is an environment variable
+    that only a step of the (detached) sub-plan uses."""
+    spec, phases = scenario_failed_plan_then_edit()
+    for sp in [spec] + [p["spec"] for p in phases]:
+        sp["env"] = {"VERIF_E1": "one"}
+        sp["steps"]["S"]["env"] = ["VERIF_E1"]
+        sp["sources"]["src/x.txt"] = "x\n"
+    phases[1]["spec"]["env"] = {"VERIF_E1": "two"}
+    phases[1]["edits"] = [["repair_plan", "root plan as before"], ["change_env", "VERIF_E1 -> two"]]
+    return spec, phases
+
+
 def scenario_optional_amend_dropped():
     """An optional producer whose only consumer stops amending its output."""
     spec = {
@@ -505,6 +518,7 @@ SCENARIO_FORCE = {
 SEED_SCENARIOS = {
     "deferred_subplan_moved_output": scenario_deferred_subplan_moved_output,
     "failed_plan_then_edit": scenario_failed_plan_then_edit,
+    "failed_plan_then_env_change": scenario_failed_plan_then_env_change,
     "subplan_readd": scenario_subplan_readd,
     "optional_amend_dropped": scenario_optional_amend_dropped,
     "recycle_chain": scenario_recycle_chain,
